@@ -13,7 +13,7 @@ import numpy as np
 
 from ..core import import_library
 from ..gen import engines as E
-from ..probe import Probe, Reach
+from ..probe import Probe, Reach, plain_function
 
 WORKERS = {"quick": 1, "thorough": 16}
 nan, inf = math.nan, math.inf
@@ -218,12 +218,12 @@ def run(ctx):
         "distinct_nontrivial = distinct (engine, batch, starting state) with >= 2 rows and a NaN row or lock-previous"
     )
     ctx.assumptions += ["the oracle is the library itself in float mode, run on a deep copy taken at the entry of the batch call (Engine.copy correctness is C13's business)", "exact comparison; pairs within 1e-9 relative are counted as ulp_diff (none expected)"]
-    funcs = {"Engine.process": fl.Engine.process, "OutputVariable.defuzzify": fl.OutputVariable.defuzzify, "Activated.membership": fl.Activated.membership, "Engine.input_values.setter": fl.Engine.__dict__["input_values"].fset, "scalar": fl.library.scalar}
+    funcs = {"Engine.process": fl.Engine.process, "OutputVariable.defuzzify": fl.OutputVariable.defuzzify, "Activated.membership": fl.Activated.membership, "Engine.input_values.setter": plain_function(fl.Engine, "input_values"), "scalar": fl.library.scalar}
     with Reach(funcs) as reach, Probe() as probe:
         mon = ReplayMonitor(ctx, fl)
         mon.install(probe)
         for i, rnd in ctx.cases("engines", nengines):
-            spec = E.gen_engine(rnd, activations=("General",), d=rnd.choice([1, 3, 3]), resolutions=[1, 2, 5, 10, 37, 100, 1000])
+            spec = E.gen_engine(rnd, activations=("General",), d=rnd.choice([1, 3, 3]), resolutions=[1, 2, 5, 10, 37, 100, 1000], free_weights=True, share_defuzzifier=True)
             try:
                 engine = E.build(fl, spec)
             except Exception as ex:
